@@ -131,6 +131,7 @@ class BrokerRig(object):
         # every instant handed to the library is the model's minute plus a constant number of seconds (the model counts
         # minutes; 14:30:00 and 21:00:00 are whole minutes, so 20:59:59.5 is an instant in exchange hours)
         self.frac = pd.Timedelta(seconds=seconds)
+        self.seconds_flag = seconds != 0.0          # the rigs that carry seconds also vary the zone of portfolio-level stamps
         ts = self.ts
         start = ts(t0)
         self.t0 = t0
@@ -152,6 +153,16 @@ class BrokerRig(object):
 
     def ts(self, m):
         return ts(m) + self.frac
+
+    ZONES = ["UTC", "Asia/Tokyo", "America/New_York", "Europe/Berlin"]
+
+    def tsz(self, m):
+        """The same instant, expressed in another time zone for every other rig (requests made directly on a portfolio
+        compare instants, whatever zone the caller's timestamps are in; the broker's own clock stays UTC)."""
+        t = self.ts(m)
+        if self.seconds_flag:
+            return t.tz_convert(self.ZONES[self.ncalls % len(self.ZONES)])
+        return t
 
     # -- one call named as in the specification ---------------------------------------------
     def apply(self, c):
@@ -207,14 +218,14 @@ class BrokerRig(object):
             elif op == "price":
                 self.handler.set(c["asset"], cur(c["bid"]), cur(c["ask"]))
             elif op == "pf_sub":
-                b.portfolios[c["pid"]].subscribe_funds(self.ts(c["t"]), cur(c["a"]))
+                b.portfolios[c["pid"]].subscribe_funds(self.tsz(c["t"]), cur(c["a"]))
             elif op == "pf_wd":
-                b.portfolios[c["pid"]].withdraw_funds(self.ts(c["t"]), cur(c["a"]))
+                b.portfolios[c["pid"]].withdraw_funds(self.tsz(c["t"]), cur(c["a"]))
             elif op == "pf_mark":
-                b.portfolios[c["pid"]].update_market_value_of_asset(c["asset"], cur(c["px"]), self.ts(c["t"]))
+                b.portfolios[c["pid"]].update_market_value_of_asset(c["asset"], cur(c["px"]), self.tsz(c["t"]))
             elif op == "pf_txn":
                 from qstrader.broker.transaction.transaction import Transaction
-                txn = Transaction(c["asset"], c["qty"], self.ts(c["t"]), cur(c["px"]), "direct",
+                txn = Transaction(c["asset"], c["qty"], self.tsz(c["t"]), cur(c["px"]), "direct",
                                   commission=cur(c["comm"]))
                 b.portfolios[c["pid"]].transact_asset(txn)
             else:
